@@ -1,14 +1,41 @@
-import TrionModel.Model.Front
-import TrionModel.Model.Show
+import TrionModel.Lemmas.ShowAsm
 /-!
 # C19 — the disassembly text of an instruction assembles back to that instruction
-(first instalment)
+
+Models: `Show.text` (= `impl Display for InstrAt`, byte for byte), `Front.build` (= `ArmInstr::new` +
+`ArmInstr::assemble`). `Show.parts i a` is the statement (mnemonic + argument trees) which the text denotes,
+`Show.render` its concrete syntax. The step text → tokens → trees (that the parser reads `render p` back as
+`p`) is C09–C11's subject; the canonical encoding of the resulting instruction is C01–C03's.
+
+Hypotheses, stated in `Spec/Front.lean`:
+* `Printable i a` — every field fits its Rust type, PC-relative offsets are encodable, and the PC-relative
+  target lies inside the 32-bit address space (the property's side condition). All values returned by
+  `Instruction::decode` satisfy the first two (checked on every decoded pattern by the harness).
+* `EvalOK eval i a` — the label the text mentions is defined as the address it names; literals and register
+  names evaluate to themselves; `[R + x]` evaluates to an address operand read the same way by `addr_off`.
 -/
 namespace Trion.Show
 open Trion.Front
-set_option maxRecDepth 4000
 
-/-- every conditional-branch mnemonic the disassembler prints is in the assembler's table -/
-theorem show_branch_known : ∀ c : Cond, (mnemonic (bytesOf "B" ++ condName c)).isSome := by decide
+/-- C19.a  The statement printed for `i` at `a` assembles, at `a`, to exactly `i` (hence to its canonical
+encoding): mnemonic known, operand count and kinds accepted, operand order as accepted, option names as
+accepted, and the label names the address from which the assembler recomputes the same offset. -/
+theorem show_assembles (i : Instr) (a : Nat) (eval : Arg → EvalOut) (loc : Bool)
+    (hp : Printable i a) (he : EvalOK eval i a) :
+    build a (parts i a).1 (parts i a).2 eval loc = .completed i :=
+  show_assembles_proof i a eval loc hp he
+
+/-- C19.b  The mnemonic printed is in the assembler's table and selects the right template (flags,
+condition, enable bit are carried by the mnemonic). -/
+theorem show_mnemonic (i : Instr) (a : Nat) : mnemonic (parts i a).1 = some (template i) :=
+  mnemonic_parts i a
+
+/-- non-vacuity: a backward conditional branch at 0x20000000 and a PC-relative load are `Printable` -/
+example : Printable (.b 0 (-4)) 0x20000000 ∧ Printable (.ldr 1 15 (.imm 8)) 2 ∧ Printable (.push 0x40F0) 0 := by
+  refine ⟨?_, ?_, trivial⟩ <;> simp [Printable, bLo, bHi, pcOf, alPc] <;> decide
+
+/-- the side condition is needed: at 0 a branch by −8 has no target inside the address space, and the text
+(`B l_FFFFFFFC;`) does not assemble back -/
+example : ¬ Printable (.b 14 (-8)) 0 := by simp [Printable, pcOf]
 
 end Trion.Show
